@@ -66,7 +66,7 @@ Section WP.
     apply bind_Ok in H as (seed & Hseed & H). apply bind_Ok in H as (s0 & Hs0 & H).
     apply bind_Ok in H as (s & Hs & H). injection H as <-. cbn [kp_sk kp_pk].
     apply of_option_Ok in Hseed, Hs0, Hs.
-    pose proof (g_derive_valid CS GL _ _ _ _ Hs0) as [Hd Hl]. rewrite Hd in Hs. injection Hs as <-.
+    pose proof (g_derive_valid CS GL _ _ _ _ (hkdf_expand_length _ HL _ _ _ _ Hseed) Hs0) as [Hd Hl]. rewrite Hd in Hs. injection Hs as <-.
     exists seed. repeat split; auto.
   Qed.
 
